@@ -2,6 +2,7 @@ package server
 
 import (
 	"context"
+	"sort"
 	"strings"
 
 	"go.lsp.dev/protocol"
@@ -13,20 +14,32 @@ import (
 func (s *Server) WorkspaceSymbol(ctx context.Context, params *protocol.WorkspaceSymbolParams) ([]protocol.SymbolInformation, error) {
 	query := strings.ToLower(params.Query)
 
-	var symbols []protocol.SymbolInformation
-
+	// sync.Map iterates in no particular order; visit documents sorted by URI
+	// so that identical requests return identical lists.
+	contents := make(map[protocol.DocumentURI]string)
 	s.documents.Range(func(key, value any) bool {
-		uri := key.(protocol.DocumentURI)
-		content := value.(string)
-
-		journal, _ := parser.Parse(content)
-		if journal == nil {
-			return true
+		uri, okURI := key.(protocol.DocumentURI)
+		content, okContent := value.(string)
+		if okURI && okContent {
+			contents[uri] = content
 		}
-
-		symbols = append(symbols, extractSymbols(journal, uri, query)...)
 		return true
 	})
+	uris := make([]string, 0, len(contents))
+	for uri := range contents {
+		uris = append(uris, string(uri))
+	}
+	sort.Strings(uris)
+
+	var symbols []protocol.SymbolInformation
+	for _, u := range uris {
+		uri := protocol.DocumentURI(u)
+		journal, _ := parser.Parse(contents[uri])
+		if journal == nil {
+			continue
+		}
+		symbols = append(symbols, extractSymbols(journal, uri, query)...)
+	}
 
 	return symbols, nil
 }
